@@ -381,6 +381,11 @@ pub fn check_bytes(ctx: &mut Ctx, b: &Vec<u8>) -> Result<(), String> {
         other => return Err(format!("base64url encoding followed by decoding is not the identity on {}: {other:?}", crate::core::hex(b))),
     }
     let s: String = Bytes::from(b.clone()).into();
+    // the conversion of a byte string into its text is a base64url encoder too: the strict decoder inverts it
+    match encoding::try_from_base64url(&s) {
+        Some(d) if d == *b => {}
+        other => return Err(format!("String::from(Bytes) followed by base64url decoding is not the identity on {}: text {s:?} decodes to {other:?}", crate::core::hex(b))),
+    }
     match Bytes::try_from(s.as_str()) {
         Ok(d) if d.as_slice() == b.as_slice() => {}
         other => return Err(format!("Bytes -> String -> Bytes is not the identity on {}: {other:?}", crate::core::hex(b))),
